@@ -94,6 +94,20 @@ func prefixCase(s *cases.Set, v uint32, a uint32) {
 		Replay:     map[string]interface{}{"api": "DevAddr.SetAddrPrefix/IsNetID/NwkID", "netid": fmt.Sprintf("%06x", v), "devaddr": fmt.Sprintf("%08x", a), "observed_addr": fmt.Sprintf("%08x", oaddr)}})
 }
 
+// addrCase: NetIDType / NwkID of a DevAddr as it is (coverage of the harness runs showed that the "no type
+// prefix" answers were never observed)
+func addrCase(s *cases.Set, a uint32) {
+	var da lorawan.DevAddr
+	binary.BigEndian.PutUint32(da[:], a)
+	nwk := da.NwkID()
+	onwk := cq.None
+	if nwk != nil {
+		onwk = cq.Some(cq.Tuple(cq.N(be(nwk)), fmt.Sprintf("%d%%nat", len(nwk))))
+	}
+	s.Add(cases.Case{Term: fmt.Sprintf("CAddr %d %s %s", a, cq.Z(int64(da.NetIDType())), onwk), Key: fmt.Sprintf("addr:%08x", a), Kind: "devaddr-type",
+		Nontrivial: true, Replay: map[string]interface{}{"api": "DevAddr.NetIDType/NwkID", "devaddr": fmt.Sprintf("%08x", a)}})
+}
+
 func main() {
 	dir, seed, thorough := cases.Args()
 	r := cq.NewRNG(seed)
@@ -142,6 +156,16 @@ func main() {
 			prefixCase(s, t<<21|(id^1<<bit), a)
 			prefixCase(s, t<<21|id, a)
 		}
+	}
+	// raw addresses: every first byte (all type prefixes, and ff = none) x boundary tails, and random ones
+	for b0 := uint32(0); b0 < 256; b0++ {
+		addrCase(s, b0<<24)
+		addrCase(s, b0<<24|0xffffff)
+		addrCase(s, b0<<24|r.U32()&0xffffff)
+	}
+	s.Exhaustive("DevAddr.NetIDType/NwkID: all 256 first bytes")
+	for i := 0; i < nPrefix/2; i++ {
+		addrCase(s, r.U32())
 	}
 	// representations
 	hexd := []byte("0123456789abcdefABCDEF")
